@@ -37,11 +37,15 @@ def run_impl(lines):
     out = [None] * len(lines)
     groups = {"ir": [], "fwd": [], "grp": [], "prog": [], "rt": []}
     lint = []
+    rtl = []
     layp = []
     for i, l in enumerate(lines):
         m = int(l.split()[0])
         if m == 103:
             lint.append(i)
+            continue
+        if m == 203:
+            rtl.append(i)
             continue
         if m in (20, 120, 220, 221, 222, 320):
             layp.append(i)
@@ -50,6 +54,10 @@ def run_impl(lines):
     if layp:
         res = layout_probe([lines[i] for i in layp])
         for j, i in enumerate(layp):
+            out[i] = res[j]
+    if rtl:
+        res = rt_lint_probe([lines[i] for i in rtl])
+        for j, i in enumerate(rtl):
             out[i] = res[j]
     if lint:
         res = lint_probe([lines[i] for i in lint])
@@ -557,6 +565,66 @@ def lint_probe(lines):
     for k in range(len(lines)):
         o_ = [x for kk, x in other if kk == k]
         res.append("%s # fails=%s" % (verdict[k], ("does_not_compile:" + o_[0].replace(" ", "_")) if o_ else "-"))
+    return res
+
+
+# ------------------------------------------------------------------------------------------ rustc's FFI lints on the runtime wrapper types themselves
+RT_TYPES = ["CBox<'static, u64>", "CArc<Pod>", "CArcSome<u64>", "CSliceRef<'static, u8>", "CSliceMut<'static, Pod>", "CSliceBox<'static, u64>", "CVec<u64>",
+            "COption<u64>", "CResult<u64, u32>", "CTup2<u8, u64>", "CTup3<u8, u64, u16>", "CTup4<u8, u64, u16, i32>", "Callback<'static, c_void, u64>",
+            "OpaqueCallback<'static, Pod>", "CIterator<'static, u64>", "ReprCString", "ReprCStr<'static>", "CRefWaker<'static>", "&CRefWaker<'static>",
+            "CGlueObjContainer<CBox<'static, c_void>, NoContext, u8>", "FooBox<'static>", "FooArcBox<'static>", "GrpBox<'static>",
+            "cglue::ext::core::future::FutureBox<'static, u64>", "cglue::ext::futures::stream::StreamBox<'static, u64>",
+            "cglue::ext::futures::sink::SinkBox<'static, u64, u32>", "cglue::ext::core::clone::CloneBox<'static>", "cglue::ext::core::fmt::DebugBox<'static>",
+            "Fwd<*mut u8>", "COption<CBox<'static, c_void>>", "FooRef<'static>", "GrpArcBox<'static>", "CTup1<u64>", "CResult<CBox<'static, c_void>, i32>",
+            "COption<CArc<c_void>>", "CSliceRef<'static, CSliceRef<'static, u8>>"]
+
+
+def rt_lint_probe(lines):
+    """'203 <k> |': the k-th runtime wrapper type (RT_TYPES: every C-compatible type the library ships, instantiated, plus generated object and group
+    types and the library's own future/stream/sink objects; features task + futures) is declared as the parameter of a foreign function in a crate with
+    #![deny(improper_ctypes)]: rustc judges the TYPE, recursively through its fields.  '1' = accepted, '0' = an FFI lint fired on it."""
+    import re
+    d = os.path.join(vlib.CACHE, "rt_lint")
+    os.makedirs(os.path.join(d, "src"), exist_ok=True)
+    ks = [int(l.split()[1]) for l in lines]
+    head = ("#![deny(improper_ctypes_definitions, improper_ctypes)]\n#![allow(unused, dead_code, unused_imports, clippy::all)]\n"
+            "use cglue::prelude::v1::*;\nuse cglue::*;\nuse cglue::arc::*; use cglue::boxed::*; use cglue::callback::*; use cglue::iter::*; use cglue::option::*; use cglue::result::*; "
+            "use cglue::slice::*;\nuse cglue::vec::*; use cglue::repr_cstring::*; use cglue::trait_group::*; use cglue::tuple::*; use cglue::task::*;\n"
+            "#[repr(C)] #[derive(Clone, Copy)] pub struct Pod { pub a: u8, pub b: u32, pub c: i64 }\n"
+            "#[cglue_trait] pub trait Foo { fn get(&self, x: u32) -> u32; }\n#[cglue_trait] pub trait Bar { fn bar(&self) -> u8; }\ncglue_trait_group!(Grp, Foo, { Bar });\n"
+            "extern \"C\" {\n")
+    body = head + "".join("// @@ITEM %d\nfn p%d(x: %s);\n" % (j, j, RT_TYPES[k % len(RT_TYPES)]) for j, k in enumerate(ks)) + "}\n"
+    open(os.path.join(d, "src", "lib.rs"), "w").write(body)
+    open(os.path.join(d, "Cargo.toml"), "w").write('[package]\nname = "rt_lint"\nversion = "0.0.0"\nedition = "2018"\n\n[workspace]\n\n[dependencies]\n'
+                                                    'cglue = { path = "/repo/cglue", features = ["task", "futures"] }\nfutures = { version = "0.3", default-features = false }\n')
+    try:
+        import shutil
+        shutil.copy(os.path.join(vlib.REPO, "Cargo.lock"), os.path.join(d, "Cargo.lock"))
+    except OSError:
+        pass
+    rc, o, e, dt = vlib.sh("timeout 1200 cargo build --offline --message-format=short", cwd=d, timeout=1230)
+    item_at, cur = [], -1
+    for ln in body.split("\n"):
+        m = re.match(r"// @@ITEM (\d+)", ln)
+        if m:
+            cur = int(m.group(1))
+        item_at.append(cur)
+    verdict = {j: "1" for j in range(len(lines))}
+    other = []
+    for ln in e.split("\n"):
+        m = re.match(r"src/lib.rs:(\d+):\d+: (error[^:]*): (.*)", ln)
+        if m:
+            j = item_at[min(int(m.group(1)) - 1, len(item_at) - 1)]
+            if "not FFI-safe" in m.group(3) or "improper_ctypes" in m.group(3):
+                verdict[j] = "0"
+            else:
+                other.append((j, m.group(3)[:160]))
+    if rc != 0 and not other and all(v == "1" for v in verdict.values()):
+        return ["!CRASH the runtime-type probe does not build: " + " / ".join([x for x in e.split("\n") if "error" in x][:2])[:300]] * len(lines)
+    res = []
+    for j in range(len(lines)):
+        o_ = [x for jj, x in other if jj == j or jj < 0]
+        res.append("%s # fails=%s" % (verdict[j], ("does_not_compile:" + o_[0].replace(" ", "_")) if o_ else "-"))
     return res
 
 
